@@ -298,6 +298,37 @@ func c16Special() []refTree {
 				{Position: "schema.properties.p", Kind: "schema", Shape: "external-self-cycle", Ref: "ext/e.json#/components/schemas/C", Marker: "MARKEC"},
 				{Position: "nested:Site.r", Kind: "schema", Shape: "external-refers-back-into-root", Ref: "../root.json#/components/schemas/RootT", Marker: "MARKROOTT"},
 			})
+		// (d2) the external file refers back to the INSIDE of a root component (a property of it)
+		root = refRootSkeleton()
+		dig(root, "components", "schemas")["RootT"] = gen.S{"type": "object", "title": "MARKROOTT", "properties": gen.S{"id": gen.S{"type": "integer", "title": "MARKROOTID"}, "tags": gen.S{"type": "array", "items": gen.S{"type": "string", "title": "MARKROOTTAG"}}}}
+		dig(root, "components", "schemas")["Site"] = gen.S{"$ref": "ext/e.json#/components/schemas/B"}
+		mk(rootPath, root, map[string]gen.S{dir + "/ext/e.json": lib("e", gen.S{
+			"B": gen.S{"type": "object", "title": "MARKEB", "properties": gen.S{"r": gen.S{"$ref": "../root.json#/components/schemas/RootT/properties/id"}, "next": gen.S{"$ref": "../root.json#/components/schemas/RootT/properties/tags/items"}}}})},
+			[]refPlan{
+				{Position: "components.schemas.Site", Kind: "schema", Shape: "external-refers-back-inside-a-root-component", Ref: "ext/e.json#/components/schemas/B", Marker: "MARKEB"},
+				{Position: "nested:Site.r", Kind: "schema", Shape: "external-refers-back-inside-a-root-component", Ref: "../root.json#/components/schemas/RootT/properties/id", Marker: "MARKROOTID"},
+				{Position: "nested:Site.next", Kind: "schema", Shape: "external-refers-back-inside-a-root-component", Ref: "../root.json#/components/schemas/RootT/properties/tags/items", Marker: "MARKROOTTAG"},
+			})
+		// (f) one external library offering the same name in every component collection: they are different objects
+		root = refRootSkeleton()
+		dig(root, "components", "schemas")["Site"] = gen.S{"$ref": "common.json#/components/schemas/Pet"}
+		dig(root, "paths", "/op1", "post", "responses")["201"] = gen.S{"$ref": "common.json#/components/responses/Pet"}
+		dig(root, "paths", "/op1", "post")["parameters"] = gen.Arr(gen.S{"$ref": "common.json#/components/parameters/Pet"})
+		dig(root, "paths", "/op2", "post")["requestBody"] = gen.S{"$ref": "common.json#/components/requestBodies/Pet"}
+		dig(root, "paths", "/op2", "post", "responses", "200", "headers")["H"] = gen.S{"$ref": "common.json#/components/headers/Pet"}
+		dig(root, "paths", "/op2", "post", "responses", "200", "content", "application/json", "examples")["e"] = gen.S{"$ref": "common.json#/components/examples/Pet"}
+		common := gen.S{"openapi": "3.0.3", "info": gen.S{"title": "common", "version": "1"}, "paths": gen.S{}, "components": gen.S{
+			"schemas": gen.S{"Pet": gen.S{"type": "object", "title": "MARKSCHEMAPET"}}, "responses": gen.S{"Pet": targetObject("response", "MARKRESPPET")},
+			"parameters": gen.S{"Pet": targetObject("parameter", "MARKPARAMPET")}, "requestBodies": gen.S{"Pet": targetObject("requestBody", "MARKBODYPET")},
+			"headers": gen.S{"Pet": targetObject("header", "MARKHEADERPET")}, "examples": gen.S{"Pet": targetObject("example", "MARKEXAMPLEPET")}}}
+		mk(rootPath, root, map[string]gen.S{dir + "/common.json": common}, []refPlan{
+			{Position: "operation.responses.201", Kind: "response", Shape: "same-name-in-every-collection-of-one-file", Ref: "common.json#/components/responses/Pet", Marker: "MARKRESPPET"},
+			{Position: "nested:op2.requestBody", Kind: "requestBody", Shape: "same-name-in-every-collection-of-one-file", Ref: "common.json#/components/requestBodies/Pet", Marker: "MARKBODYPET"},
+			{Position: "operation.parameters[]", Kind: "parameter", Shape: "same-name-in-every-collection-of-one-file", Ref: "common.json#/components/parameters/Pet", Marker: "MARKPARAMPET"},
+			{Position: "response.headers.H", Kind: "header", Shape: "same-name-in-every-collection-of-one-file", Ref: "common.json#/components/headers/Pet", Marker: "MARKHEADERPET"},
+			{Position: "mediaType.examples.e", Kind: "example", Shape: "same-name-in-every-collection-of-one-file", Ref: "common.json#/components/examples/Pet", Marker: "MARKEXAMPLEPET"},
+			{Position: "components.schemas.Site", Kind: "schema", Shape: "same-name-in-every-collection-of-one-file", Ref: "common.json#/components/schemas/Pet", Marker: "MARKSCHEMAPET"},
+		})
 	}
 	return out
 }
@@ -325,6 +356,12 @@ func c16Nested(d *openapi3.T, pos string) (string, string, bool, bool) {
 			return "", "", false, false
 		}
 		return schemaInfo(s.Value.Properties["r"])
+	}
+	if pos == "nested:op2.requestBody" {
+		if op2 := opOf(d, "/op2"); op2 != nil {
+			return bodyInfo(op2.RequestBody)
+		}
+		return "", "", false, false
 	}
 	op1 := opOf(d, "/op1")
 	r201 := func() *openapi3.Response {
